@@ -1,5 +1,6 @@
 import Props.C06
 import Props.C16
+import Props.FnTie
 /-!
 # C10 — import activation tokens are bound to exporter, importer, kind and subject
 
